@@ -381,7 +381,7 @@ NOT_BUILT = "check not built yet (see DESIGN.md section 3 for the plan)"
 
 # Supplements of the third session (round-3 seeded changes and the audit of
 # every generator/oracle, DESIGN.md 10.4 / 10.5): appended to the texts above.
-FUZZED = {'C13': 'misfit', 'C14': 'reject, coeff', 'C16': 'oaw (thorough: cm)',
+FUZZED = {'C13': 'misfit', 'C14': 'reject, coeff', 'C16': 'oaw',
           'C17': 'graph', 'C19': 'extract, ellipse', 'C20': 'fill, setters'}
 EXTRA = {
  'C01': "Also generated: re-use of model/source/field objects before the judged call, provenance of the supplied field, source and model (copy, dict, pickle, deepcopy; model input forms), dirty-boundary start fields, omitted keywords, tol 0/1e-14, up to 32 cells; the certificate uses the source as it was before any call; screen, stored log and info dict are cross-checked; Field.field must agree with its components.",
